@@ -182,6 +182,11 @@ type Options struct {
 	Owns        func(kind string) bool
 	Property    string
 	MaxViol     int
+	// FreshJobs: every transition is executed on a fresh application that first replays the parent's whole
+	// path from genesis (no restore-in-place, no instance re-use): exactly what a node that has been
+	// running since genesis does, including whatever it keeps in memory. Costs one application start per
+	// transition; used where the fan-out is small.
+	FreshJobs bool
 	// NoOracle: execute and de-duplicate only (C01 twins); Record receives every transition in deterministic order
 	NoOracle bool
 	Record   func(path []string, obs *StepObs)
@@ -356,9 +361,17 @@ func (s *Scenario) Explore(opt Options) (Stats, []Violation) {
 						e = s.NewExec()
 						e.W.SetBase(base)
 					}
-					e.W.Restore(p.snap)
-					e.M = p.m.Clone()
-					e.Aux = cloneAux(p.aux)
+					if opt.FreshJobs {
+						e = s.NewExec()
+						e.W.SetBase(base)
+						for _, ai := range p.path {
+							e.Run(&s.Actions[ai], false)
+						}
+					} else {
+						e.W.Restore(p.snap)
+						e.M = p.m.Clone()
+						e.Aux = cloneAux(p.aux)
+					}
 					obs, discs := e.Run(&s.Actions[j.act], !opt.NoOracle)
 					r := result{job: j, obs: obs, discs: discs}
 					if !obs.Halted {
@@ -476,8 +489,17 @@ func (s *Scenario) Explore(opt Options) (Stats, []Violation) {
 			}()
 		}
 		wg.Wait()
-		for _, er := range errs {
+		for i, er := range errs {
 			if er != "" {
+				// what a fresh application does on this history is the authority: run the oracles there;
+				// owned discrepancies of its last step become candidates like any other (Confirm replays them again)
+				if !opt.NoOracle {
+					pn := names(toReplay[i].path)
+					fo, fd := s.ReplayNames(pn)
+					if len(fd) == len(pn) {
+						classify(pn, fd[len(fd)-1], &fo[len(fo)-1])
+					}
+				}
 				// the explored (re-used, restored) instance and a fresh application disagree on the same
 				// history: either the harness restores badly or the application keeps state outside its
 				// database. Verdicts of this run then rest on fresh replays only (Confirm); without a
